@@ -8,6 +8,7 @@ ASSUME InitRegs
 Ev == Traces[tid].ev
 E == Ev[l]
 TInit == /\ tid \in 1..NT /\ l = 1
+         /\ fwdO = Traces[tid].cfg.fwd_opts /\ bckO = Traces[tid].cfg.bck_opts
          /\ nt = Traces[tid].cfg.nt /\ tsReq = Traces[tid].cfg.ts_requires_grad
          /\ k = nt /\ ySrc = "stored" /\ cot = {nt} /\ gradTs = {} /\ segs = <<>> /\ done = FALSE
 IsEvent(a) == l <= Len(Ev) /\ E.a = a /\ l' = l + 1 /\ UNCHANGED tid
@@ -16,8 +17,10 @@ TSeg == /\ IsEvent("seg") /\ Segment
         /\ E.y_is_stored                                    \* the y part is the stored forward value at time index k
         /\ E.cotangent_ok                                   \* dL/dy part = incoming cotangents of outputs k..nt propagated so far
         /\ E.opts = "bck"
+        /\ \A key \in OptKeys : E.eff[key] = segs'[Len(segs')].eff[key]   \* options seen by the backward integrator, key by key
 TRet == /\ IsEvent("ret") /\ Finish
         /\ E.ts_grad_present = tsReq
+        /\ "eff" \in DOMAIN E => \A key \in OptKeys : E.eff[key] = Effective(fwdO, bckO)[key]   \* built-in backward: configuration seen at its step attempts
         /\ \A j \in 1..Len(E.verdicts) : E.verdicts[j][2]
 TNext == TSeg \/ TRet
 TSpec == TInit /\ [][TNext]_tvars
